@@ -1767,6 +1767,9 @@ impl FunctionDef {
         #[cfg(not(target_arch = "wasm32"))]
         let start = std::time::Instant::now();
 
+        #[cfg(blots_verif)]
+        verif_hooks::record_call(self, &this_value, args.len(), call_depth);
+
         self.check_arity(args.len())?;
 
         if call_depth > 1000 {
@@ -1916,6 +1919,55 @@ fn stable_sort_by<T: Copy>(items: &mut Vec<T>, mut compare: impl FnMut(&T, &T) -
         width *= 2;
     }
     *items = src;
+}
+
+/// Verification hooks (compiled only with `--cfg blots_verif`): a thread-local log of function
+/// calls, empty and inert unless a harness switches it on.
+#[cfg(blots_verif)]
+pub mod verif_hooks {
+    use super::FunctionDef;
+    use crate::values::Value;
+    use std::cell::RefCell;
+
+    #[derive(Debug, Clone)]
+    pub struct CallEvent {
+        pub depth: usize,
+        pub builtin: bool,
+        pub name: String,
+        pub nargs: usize,
+        pub this_is_null: bool,
+        /// address of a local of the call frame: native stack position
+        pub sp: usize,
+    }
+
+    thread_local! {
+        static CALLS: RefCell<Option<Vec<CallEvent>>> = const { RefCell::new(None) };
+    }
+
+    pub fn start() {
+        CALLS.with(|l| *l.borrow_mut() = Some(Vec::new()));
+    }
+
+    pub fn take() -> Vec<CallEvent> {
+        CALLS.with(|l| l.borrow_mut().take().unwrap_or_default())
+    }
+
+    pub fn record_call(def: &FunctionDef, this_value: &Value, nargs: usize, depth: usize) {
+        let marker = 0u8;
+        let sp = &marker as *const u8 as usize;
+        CALLS.with(|l| {
+            if let Some(log) = l.borrow_mut().as_mut() {
+                log.push(CallEvent {
+                    depth,
+                    builtin: matches!(def, FunctionDef::BuiltIn(_)),
+                    name: def.get_name(),
+                    nargs,
+                    this_is_null: matches!(this_value, Value::Null),
+                    sp,
+                });
+            }
+        });
+    }
 }
 
 pub fn is_built_in_function(ident: &str) -> bool {
